@@ -136,6 +136,20 @@ def handler : Handler := fun op args =>
       let rv := match s.rval with
         | none => "none" | some f => if f == n then "new" else "old"
       pure ("ok " ++ fmtBool s.flag ++ " " ++ cache ++ " " ++ rv ++ " " ++ toString s.pc)) args
+  | "racer" => Wire.run (do
+      -- racer <n> <c0> <steps…> <j>: the reader (an in-flight call) does j steps, the toggle runs as far
+      -- as it can, the reader finishes, the toggle finishes
+      let n ← bool; let c0 ← optOf bool; let steps ← listOf nat; let j ← nat
+      let _tag ← word  -- which cached function the harness ran (nv / co)
+      let prog := Race.decode steps
+      let sched := List.replicate j Race.Who.R ++ List.replicate 4 Race.Who.T ++
+        List.replicate 5 Race.Who.R ++ List.replicate 4 Race.Who.T
+      let s := Race.rrun prog n (Race.RSt.init n c0) sched
+      let cache := match s.cache with
+        | none => "empty" | some c => if c == s.flag then "fresh" else "stale"
+      let rv := match s.rval with
+        | none => "none" | some f => if f == n then "new" else "old"
+      pure ("ok " ++ fmtBool s.flag ++ " " ++ cache ++ " " ++ rv)) args
   | "handover" => Wire.run (do
       -- first Process.start() with a lookup in flight, then a toggle: in the model the hand-over is atomic
       -- w.r.t. lookups (`startProc` leaves the state alone), so after the effective toggle the cache is
